@@ -383,6 +383,7 @@ def run_body(ctx, bg):
     model = []      # kernel views contradict the model: nothing of this run can be trusted
     setup = []      # sandboxes that could not be started for reasons outside the mount block
     mi_drift = set()
+    breached = set(b["i"] for b in bad if b["c"] == "viol")
     for b in bad:
         o = obs[b["i"] - 1]
         c = o["case"]
@@ -398,6 +399,10 @@ def run_body(ctx, bg):
                 ctx.note("DRIFT " + what)
         elif b["c"] == "setup":
             setup.append(what + ": " + o.get("err", ""))
+        elif b["i"] in breached:
+            # two kernel views of a sandbox that already breaches the property (e.g. the whole host tree
+            # under /old_root, which other mounts keep changing) say nothing about the model
+            ctx.note("kernel views differ on a breached sandbox: " + what)
         else:
             model.append(what)
     # ---- 4b. TLC validates the strace records of the raw in-child sequence
